@@ -243,6 +243,7 @@ fn run_parent(prop: &str, tier: Tier) -> i32 {
             .args(["shard", prop, tier.name(), &i.to_string(), &n.to_string()])
             .arg(&out)
             .env("VERIF_SEED", seed.to_string())
+            .env("VERIF_SOFT_DEADLINE_S", format!("{}", budget.as_secs_f64() * 0.7))
             .stdin(Stdio::null())
             .stdout(Stdio::null())
             .stderr(Stdio::piped())
@@ -316,6 +317,13 @@ fn run_parent(prop: &str, tier: Tier) -> i32 {
         println!("{}", l);
     }
 
+    if total.skipped_after_deadline > 0 {
+        total.notes.push(format!(
+            "soft deadline ({:.0} s = 70% of the tier's budget) reached: {} generated cases were not evaluated; the counts above are what was explored",
+            budget.as_secs_f64() * 0.7,
+            total.skipped_after_deadline
+        ));
+    }
     let wall = start.elapsed().as_secs_f64();
     let evidence = json!({
         "property_id": prop,
@@ -332,6 +340,7 @@ fn run_parent(prop: &str, tier: Tier) -> i32 {
             "excluded_by_known_finding": total.excluded,
             "known_finding_hits": total.kf_hits,
             "inconclusive": total.inconclusive,
+            "skipped_after_soft_deadline": total.skipped_after_deadline,
             "replayed_saved_cases": replayed,
             "exhaustive": !total.exhaustive_subspaces.is_empty() && entry.exhaustive_claim,
             "exhaustive_subspaces": total.exhaustive_subspaces,
